@@ -6,7 +6,7 @@ import asyncio
 import random
 
 from vlib import boot
-from vlib.ref import headers as R, merkle as M, minitx
+from vlib.ref import btc_tx as BT, headers as R, merkle as M, minitx
 
 ID = 'C08'
 LEVEL = 'exploration'
@@ -17,7 +17,7 @@ RULE = ('case = a sim chain of 4..9 blocks with 1..64 real transactions each; fo
 ASSUMPTIONS = ['SHA-256d collision resistance', 'txid of the generated legacy transactions taken from an independent parser (vlib/ref/minitx.py)',
                'mutations that leave the recomputed root unchanged (side flip of a duplicated last node, position bits above the tree depth) '
                'are expected to still verify: the statement\'s criterion is met; counted as ineffective']
-REQUIRED_HITS = ['reorg.tip_replaced_by_subscription_checked', 'reorg.cache_checked_batch_in_flight', 'planted.checked', 'reorg.in_flight_checked', 'reorg.cache_checked', 'reuse.checked', 'genuine.accepted', 'genuine.via_single_batch', 'mut.branch_digit', 'mut.pos_bit', 'mut.truncate', 'mut.extend', 'mut.tx_byte',
+REQUIRED_HITS = ['reorg.database_record_checked', 'shape.witness_serialised_transaction', 'reorg.tip_replaced_by_subscription_checked', 'reorg.cache_checked_batch_in_flight', 'planted.checked', 'reorg.in_flight_checked', 'reorg.cache_checked', 'reuse.checked', 'genuine.accepted', 'genuine.via_single_batch', 'mut.branch_digit', 'mut.pos_bit', 'mut.truncate', 'mut.extend', 'mut.tx_byte',
                  'mut.height', 'mut.height_no_header', 'mut.foreign_proof', 'mut.ineffective_still_verifies', 'shape.odd_level', 'shape.single_tx',
                  'shape.64']
 MAXT = (1 << 255) - 1
@@ -46,10 +46,26 @@ def gen_cases(rng, tier, shard, nshards):
 def execute(rec, case):
     loop = asyncio.new_event_loop()
     try:
-        loop.run_until_complete(asyncio.wait_for(_run(rec, case), 900))
+        loop.run_until_complete(asyncio.wait_for(_run_and_close(rec, case), 900))
     finally:
         loop.run_until_complete(loop.shutdown_default_executor())
         loop.close()
+
+
+async def _run_and_close(rec, case):
+    try:
+        await _run(rec, case)
+    finally:
+        for db in _S.pop('open_dbs', []):
+            try:
+                await db.close()
+            except Exception:  # noqa
+                pass
+
+
+def _txid(raw):
+    """transaction id by the independent codec: reversed double SHA-256 of the serialisation WITHOUT witness data"""
+    return BT.txid(BT.decode(raw))
 
 
 class Net:
@@ -100,7 +116,15 @@ async def _run(rec, case):
             tx = Transaction().add_inputs([Input.spend(prev)]).add_outputs(
                 [Output.pay_pubkey_hash(r.randrange(1, 10 ** 9), r.randbytes(20)) for _ in range(r.choice([1, 1, 2, 5]))])
             raw = tx.raw
-            txs.append((raw, bytes.fromhex(minitx.parse(raw)['txid'])[::-1]))
+            leaf = bytes.fromhex(_txid(raw))[::-1]
+            if r.random() < 0.25:
+                # what a hub hands out for a segwit transaction: the BIP144 serialisation (marker, flag, witness stacks).  The block's Merkle
+                # tree is built from txids, i.e. from the hash WITHOUT witness data (seeded break C08-J hashed the full serialisation)
+                ref = BT.decode(raw)
+                ref.witnesses = [[r.randbytes(r.choice([1, 33, 72]))for _ in range(r.choice([1, 2]))] for _ in ref.inputs]
+                raw = BT.encode_bip144(ref)
+                rec.hit('shape.witness_serialised_transaction')
+            txs.append((raw, leaf))
         blocks.append(txs)
     # ---- mined sim chain carrying the blocks' Merkle roots
     chain = []
@@ -141,12 +165,12 @@ async def _run(rec, case):
         tx = Transaction(raw, height=height)
         try:
             if via_batch:
-                txid = minitx.parse(raw)['txid']
+                txid = _txid(raw)
                 net.batch_reply = {txid: (raw.hex(), merkle)}
                 txs = await ledger._single_batch([txid], {txid: height})
                 tx = list(txs.values())[0]
             elif merkle == 'fetch':
-                txid = minitx.parse(raw)['txid']
+                txid = _txid(raw)
                 net.merkle_reply = {(txid, height): _S['fetch_reply']}
                 await ledger.maybe_verify_transaction(tx, height)
             else:
@@ -160,7 +184,7 @@ async def _run(rec, case):
         if not (0 < height < nh):
             return False
         try:
-            txid = bytes.fromhex(minitx.parse(raw)['txid'])[::-1]
+            txid = bytes.fromhex(_txid(raw))[::-1]
             br = [bytes.fromhex(b)[::-1] for b in branch_hex]
         except Exception:  # noqa
             return False
@@ -195,7 +219,7 @@ async def _run(rec, case):
         for _ in range(k):
             prev_o = Transaction(height=-2).add_outputs([Output.pay_pubkey_hash(r.randrange(1, 10 ** 10), r.randbytes(20))]).outputs[0]
             t = Transaction().add_inputs([Input.spend(prev_o)]).add_outputs([Output.pay_pubkey_hash(r.randrange(1, 10 ** 9), r.randbytes(20))])
-            out.append((t.raw, bytes.fromhex(minitx.parse(t.raw)['txid'])[::-1]))
+            out.append((t.raw, bytes.fromhex(_txid(t.raw))[::-1]))
         return out
 
     await _main_loop(rec, r, blocks, chain, nh, ledger, net, verify, expected, judge, Transaction, header_root)
@@ -215,7 +239,7 @@ async def _run(rec, case):
             i = r.randrange(len(alt))
             raw, leaves = alt[i][0], [t[1] for t in alt]
         proof = {'merkle': [b[::-1].hex() for b in M.branch(leaves, i)], 'pos': i, 'block_height': h}
-        txid = minitx.parse(raw)['txid']
+        txid = _txid(raw)
         net.merkle_reply = {(txid, h): proof}
         net.gate, net.entered = asyncio.Event(), asyncio.Event()
         obj = Transaction(raw, height=h)
@@ -265,7 +289,7 @@ async def _run(rec, case):
     rec.hit('planted.checked')
     pi = r.randrange(len(planted))
     praw, pleaves = planted[pi][0], [t[1] for t in planted]
-    ptxid = minitx.parse(praw)['txid']
+    ptxid = _txid(praw)
     pproof = {'merkle': [b[::-1].hex() for b in M.branch(pleaves, pi)], 'pos': pi, 'block_height': tip + j}
     obj = Transaction(praw, height=tip + j)
     try:
@@ -300,7 +324,7 @@ async def _run(rec, case):
     if tip_block:
         ti = r.randrange(len(tip_block))
         traw, tleaves = tip_block[ti][0], [t[1] for t in tip_block]
-        ttxid = minitx.parse(traw)['txid']
+        ttxid = _txid(traw)
         tproof = {'merkle': [b[::-1].hex() for b in M.branch(tleaves, ti)], 'pos': ti, 'block_height': tipn}
         net.batch_reply = {ttxid: (traw.hex(), tproof)}
         got1 = {}
@@ -331,12 +355,63 @@ async def _run(rec, case):
         else:
             rec.log('tip_replaced.first_lookup_not_verified')
         rec.case(['tip_replaced', tipn], nontrivial=True)
+    # ---- (5) the record in the wallet DATABASE (what transaction_show / transaction_list read): synced as verified at its height, then a
+    # reorganisation drops it back into the mempool, the address history lists it unconfirmed and it is synced again.  The stored row must
+    # no longer say "verified at h" (seeded break C08-I kept the old row for unconfirmed sightings)
+    if getattr(ledger.db, 'db', None) is None:
+        await ledger.db.open()
+        _S['open_dbs'] = _S.get('open_dbs', []) + [ledger.db]
+    dh = r.randrange(1, min(nh, len(hdrs)))
+    stored_now = bytes(hdrs.io.getvalue())
+    if dh < len(chain) and stored_now[dh * 112:(dh + 1) * 112] == chain[dh] and dh < len(blocks) and blocks[dh] and \
+            M.root([t[1] for t in blocks[dh]]) == R.unpack(chain[dh])['merkle']:
+        di = r.randrange(len(blocks[dh]))
+        draw, dleaves = blocks[dh][di][0], [t[1] for t in blocks[dh]]
+        dtxid = _txid(draw)
+        dproof = {'merkle': [b[::-1].hex() for b in M.branch(dleaves, di)], 'pos': di, 'block_height': dh}
+        net.batch_reply = {dtxid: (draw.hex(), dproof)}
+        got = {}
+        async for txs in ledger.request_transactions(((dtxid, dh),)):
+            got.update(txs)
+        dtx = got.get(dtxid)
+        if dtx is not None and dtx.is_verified:
+            o0 = dtx.outputs[0]
+            address, h160 = o0.get_address(ledger), o0.pubkey_hash
+            await ledger.db.save_transaction_io_batch([dtx], address, h160, f'{dtxid}:{dh}:')       # as _sync_and_save_batch does
+            row1 = await ledger.db.get_transaction(txid=dtxid)
+            # reorganisation: the server's chain forks at dh and is longer; the transaction is back in the mempool
+            v3 = [stored_now[i * 112:(i + 1) * 112] for i in range(dh)]
+            for k in range(len(hdrs) - dh + 1):
+                v3.append(mine_on(v3, M.root([t[1] for t in new_block(1)]), ts_delta=811))
+            net.server_chain = v3
+            try:
+                await asyncio.wait_for(ledger.receive_header([{'height': len(v3) - 1, 'hex': v3[-1].hex()}]), 60)
+            except Exception as e:  # noqa
+                rec.log('db_record.receive_header_raised.' + type(e).__name__)
+            if bytes(hdrs.io.getvalue())[dh * 112:(dh + 1) * 112] == v3[dh] and row1 is not None and row1.is_verified:
+                for i_ in range(dh, min(len(chain), len(v3))):
+                    chain[i_] = v3[i_]
+                net.batch_reply = {dtxid: (draw.hex(), {'block_height': 0})}
+                got = {}
+                async for txs in ledger.request_transactions(((dtxid, 0),)):
+                    got.update(txs)
+                if dtxid in got:
+                    await ledger.db.save_transaction_io_batch([got[dtxid]], address, h160, f'{dtxid}:0:')
+                    row2 = await ledger.db.get_transaction(txid=dtxid)
+                    rec.hit('reorg.database_record_checked')
+                    if row2 is not None and row2.is_verified:
+                        rec.violation('C08/verified-without-valid-proof/database-record-after-reorganisation',
+                                      f'the wallet database still records the transaction as verified at height {row2.height} after a reorganisation '
+                                      f'replaced the header at {dh} and the transaction was synced again as unconfirmed', {'height': dh, 'row_height': row2.height})
+            else:
+                rec.log('db_record.reorg_not_applied_or_row_missing')
+        rec.case(['db_record', dh], nontrivial=True)
     # ---- (2) verified through the cache, then a reorganisation replaces its block, then looked up through the cache again
     f = r.randrange(1, nh)                   # first replaced height
     victim = blocks[f] if chain[f] != fork_hdr or f != h else alt
     vi = r.randrange(len(victim))
     vraw, vleaves = victim[vi][0], [t[1] for t in victim]
-    vtxid = minitx.parse(vraw)['txid']
+    vtxid = _txid(vraw)
     vproof = {'merkle': [b[::-1].hex() for b in M.branch(vleaves, vi)], 'pos': vi, 'block_height': f}
     # variant `overlapping` (added after seeded break C08-G): the first lookup is a batch of two transactions of that block; the hub's
     # batch reply carries no proof for the second, so the ledger asks for it separately, and the reorganisation lands while that request
@@ -358,7 +433,7 @@ async def _run(rec, case):
     if overlapping:
         oi = (vi + 1) % len(victim)
         oraw = victim[oi][0]
-        otxid = minitx.parse(oraw)['txid']
+        otxid = _txid(oraw)
         net.batch_reply = {vtxid: (vraw.hex(), vproof), otxid: (oraw.hex(), None)}
         net.merkle_reply = {(otxid, f): {'merkle': [b[::-1].hex() for b in M.branch(vleaves, oi)], 'pos': oi, 'block_height': f}}
         net.gate, net.entered = asyncio.Event(), asyncio.Event()
@@ -496,9 +571,15 @@ async def _main_loop(rec, r, blocks, chain, nh, ledger, net, verify, expected, j
                 got, _, exc = await verify(raw, height, m, via)
                 judge('branch extended by one', 'extend', raw, height, m, got, exc, ['ex', n, idx])
             # one byte of the transaction (inside an output amount so that it still parses)
-            b = bytearray(raw)
-            p = len(raw) - 4 - 25 - 1 - 8 + r.randrange(8)      # amount of the last P2PKH output
-            b[p] ^= 1 << r.randrange(8)
+            if raw[4:6] == b'\x00\x01':       # witness serialisation: the outputs are not at the end; change the amount through the codec
+                ref_ = BT.decode(raw)
+                p = r.randrange(8)
+                ref_.outputs[-1].amount ^= 1 << (8 * p + r.randrange(7))
+                b = bytearray(BT.encode_bip144(ref_))
+            else:
+                b = bytearray(raw)
+                p = len(raw) - 4 - 25 - 1 - 8 + r.randrange(8)      # amount of the last P2PKH output
+                b[p] ^= 1 << r.randrange(8)
             got, _, exc = await verify(bytes(b), height, dict(genuine), via)
             judge('one tx byte changed', 'tx_byte', bytes(b), height, genuine, got, exc, ['tb', n, idx, p % 8])
             # heights
